@@ -444,3 +444,10 @@ def ReplaceAll(s, a, b):
     """str.replace_all (SMT-LIB) - z3py has no wrapper"""
     ctx = s.ctx
     return z3.SeqRef(z3.Z3_mk_seq_replace_all(ctx.ref(), s.as_ast(), a.as_ast(), b.as_ast()), ctx)
+
+IDENT = z3.Function("IDENT", z3.IntSort(), z3.IntSort())      # opaque identity on integers: controls how index terms are matched
+
+
+def ident_axiom():
+    t = z3.Int("idt")
+    return z3.ForAll([t], IDENT(t) == t, patterns=[IDENT(t)])
